@@ -39,7 +39,7 @@ const lifeT = 6 // read timeout in units
 
 // simulate returns whether the history keeps every deadline at least `slack` units away from every event and from the end,
 // and the end time
-func lifeSlackOK(evs []lifeEv, slack int) bool {
+func lifeSlackOK(evs []lifeEv, slack int, lifeT int) bool {
 	type rq struct {
 		done     bool
 		deadline int // -1 = none
@@ -139,7 +139,7 @@ func genLife(r *lp.Rng) []lifeEv {
 		}
 		// end with some time passing so that the last timers are decided
 		evs = append(evs, lifeEv{'a', 2 + r.Intn(7)})
-		if lifeSlackOK(evs, 2) {
+		if lifeSlackOK(evs, 2, lifeT) {
 			return evs
 		}
 	}
@@ -154,8 +154,8 @@ func pagedLife(pages, gap, tail int) []lifeEv {
 	return append(evs, lifeEv{'a', tail})
 }
 
-func runLifeReal(evs []lifeEv, unit time.Duration) (outs []string, final []string, panicMsg string) {
-	h := client.VerifNewHandler(16, 64, lifeT*unit)
+func runLifeReal(evs []lifeEv, unit time.Duration, timeoutUnits int) (outs []string, final []string, panicMsg string) {
+	h := client.VerifNewHandler(16, 64, time.Duration(timeoutUnits)*unit)
 	defer func() {
 		// closing the handler at the end must not panic either (a request whose channel was closed behind its back is closed twice)
 		defer func() {
@@ -260,26 +260,54 @@ func runLifeReal(evs []lifeEv, unit time.Duration) (outs []string, final []strin
 	return
 }
 
-func c16Histories() [][]lifeEv {
+type lifeHist struct {
+	t   int // read timeout in units
+	evs []lifeEv
+}
+
+func c16Histories() []lifeHist {
 	rng := lp.NewRng(*seed)
 	n := 40
 	if thorough() {
 		n = 400
 	}
-	var hist [][]lifeEv
-	hist = append(hist, pagedLife(6, 2, 3), pagedLife(5, 4, 8), pagedLife(3, 3, 2), pagedLife(8, 1, 9))
+	var hist []lifeHist
+	for _, h := range [][]lifeEv{pagedLife(6, 2, 3), pagedLife(5, 4, 8), pagedLife(3, 3, 2), pagedLife(8, 1, 9)} {
+		hist = append(hist, lifeHist{lifeT, h})
+	}
+	// a longer timeout (12, 16 units) leaves room for histories in which a page arrives EARLY in the timeout (first half,
+	// first quarter) and the next one after the deadline that was running before it, but within the timeout counted from
+	// it — every page must restart the clock, however early it comes —, and for a silence of just under / just over the timeout
+	// counted from the last page
+	for _, tu := range []int{12, 16} {
+		for _, early := range []int{tu/4 + 1, tu/2 - 1} {
+			next := tu + (early+1)/2 // between the old deadline (tu) and the restarted one (early+tu), clear of both
+			if next-tu < 2 || early+tu-next < 2 {
+				continue
+			}
+			hist = append(hist,
+				lifeHist{tu, []lifeEv{{'s', 0}, {'a', early}, {'p', 0}, {'a', next - early}, {'p', 0}, {'a', 3}, {'l', 0}, {'a', 2}}},
+				lifeHist{tu, []lifeEv{{'s', 0}, {'a', early}, {'p', 0}, {'a', tu - 3}, {'p', 0}, {'a', tu + 3}}},
+				lifeHist{tu, []lifeEv{{'s', 0}, {'s', 0}, {'a', early}, {'p', 1}, {'a', next - early}, {'l', 1}, {'p', 0}, {'a', 2}}})
+		}
+	}
+	for _, h := range hist {
+		if !lifeSlackOK(h.evs, 2, h.t) {
+			panic("scripted history with a deadline too close to an event: " + lifeLine(h))
+		}
+	}
 	for len(hist) < n {
-		hist = append(hist, genLife(rng))
+		hist = append(hist, lifeHist{lifeT, genLife(rng)})
 	}
 	return hist
 }
 
-func lifeLine(h []lifeEv) string {
+func lifeLine(h lifeHist) string {
 	var toks []string
-	for _, e := range h {
+	for _, e := range h.evs {
 		toks = append(toks, e.String())
 	}
-	return fmt.Sprintf("life %d %s", lifeT, strings.Join(toks, " "))
+	return fmt.Sprintf("life %d %s", h.t, strings.Join(toks, " "))
 }
 
 func runC16(res *lp.Result) {
@@ -289,12 +317,13 @@ func runC16(res *lp.Result) {
 		"process) and compared event by event and request by request with the timed model. " +
 		"part B: scripted client/server sessions over loopback TCP with close injected at every step boundary from the client side, the server " +
 		"side and the network; Close must return, pending requests must complete with an error, later sends must be refused, goroutine counts " +
-		"must return to the baseline. Non-trivial = a history in which a timer or a close decides a request's outcome."
+		"must return to the baseline. part C: Close called while a Send is parked in the middle of its body (by a message whose String() blocks inside the library's own debug logging), while an event handler and while a request handler is running: nothing panics, every call returns. Non-trivial = a history in which a timer or a close decides a request's outcome."
 	hist := c16Histories()
 	runScenarios(res, "C16LIFE", len(hist), func(i int) string {
-		return fmt.Sprintf("timeout=%d units of 50ms; history: %s", lifeT, strings.TrimPrefix(lifeLine(hist[i]), fmt.Sprintf("life %d ", lifeT)))
+		return fmt.Sprintf("timeout=%d units of 50ms; history: %s", hist[i].t, strings.TrimPrefix(lifeLine(hist[i]), fmt.Sprintf("life %d ", hist[i].t)))
 	})
 	runC16Conn(res)
+	runC16Park(res)
 }
 
 func init() { modes["C16LIFE"] = runC16LifeChild }
@@ -307,16 +336,16 @@ func runC16LifeChild(res *lp.Result) {
 	}
 	unit := 50 * time.Millisecond
 	line := lifeLine(hist[i])
-	outs, final, panicMsg := runLifeReal(hist[i], unit)
+	outs, final, panicMsg := runLifeReal(hist[i].evs, unit, hist[i].t)
 	// give a stray timer of the history the time to fire (it would kill this process: the parent reports the crash)
-	time.Sleep(time.Duration(lifeT+2) * unit)
+	time.Sleep(time.Duration(hist[i].t+2) * unit)
 	answers, err := lp.Ask(*driverPath, []string{line})
 	if err != nil || len(answers) != 1 {
 		res.Add(lp.Finding{Kind: "disagreement", What: "driver failure on life"})
 		return
 	}
 	a := answers[0]
-	id := fmt.Sprintf("timeout=%d units of %v; history: %s", lifeT, unit, strings.TrimPrefix(line, fmt.Sprintf("life %d ", lifeT)))
+	id := fmt.Sprintf("timeout=%d units of %v; history: %s", hist[i].t, unit, strings.TrimPrefix(line, fmt.Sprintf("life %d ", hist[i].t)))
 	parts := strings.SplitN(a, " | ", 2)
 	if len(parts) != 2 {
 		res.Add(lp.Finding{Kind: "disagreement", What: "driver answer malformed", Input: id, Model: a})
